@@ -1,11 +1,13 @@
 import PraatModel.Proto
 import PraatModel.Scripts
+import PraatModel.PointQuery
 
 /-! # driver operations for the script functions brought inside the model after the first build
 
 * `sc_split <G> <src> <tgt> <startT|N> <endT|N>` → `ok <G>` / `err <Class>`   (`splitTierEntries`)
 * `sc_spell <G> <target> <newName> <k> <word>*` → `ok <G>` / `err <Class>`    (`spellCheckEntries`; checkFunction =
   membership in the word list)
+* `po_points <n> <t>* <start> <end> <startIndex>` → `ok <k> <t>*`          (`PointObject.getPointsInInterval`)
 * `u_wsplit <str>` → `ok <k> <word>*`                                           (`str.split()`)
 -/
 
@@ -18,6 +20,10 @@ def runOpScripts (α : Type) [LT α] [LE α] [DecidableLT α] [DecidableLE α] [
   | "sc_spell" => some do
     let g ← P.tg (α := α); let target ← P.str; let nn ← P.str; let k ← P.nat; let ws ← P.many k P.str
     pure (Out.exc Out.tg (g.spellCheckEntries target nn fun w => ws.contains w))
+  | "po_points" => some do
+    let n ← P.nat; let ts ← P.many n (P.time (α := α)); let a ← P.time; let b ← P.time; let i ← P.int
+    let r := getPointsInInterval ts a b i
+    pure ("ok " ++ Out.join (toString r.length :: r.map Out.time))
   | "u_wsplit" => some do
     let s ← P.str
     let ws := pySplit s
